@@ -127,16 +127,67 @@ func (propC19) Gen(r *Rand) *Plan {
 			p.Config["funcs"] = "per-task"
 			text = "Array(" + text + ", " + flipCase(r, "Scale") + "(" + fmt.Sprint(r.Range(1, 9)) + "))"
 		}
+		// conversion twins: a string variable compared with a time span / date / number / boolean, whose values
+		// over the variable sets of the run come from one family of texts that are equal up to letter case or
+		// blanks but do not all convert alike ("1h" is an hour, "1H" is no time span at all)
+		var twinFam []string
+		if r.Bool(0.06) {
+			k := r.Intn(len(c19TwinFamilies))
+			twinFam = c19TwinFamilies[k].texts
+			cmp := "(" + r.Pick(c19TwinFamilies[k].left) + " " + r.Pick([]string{"<", ">", "=", "<>", "<=", ">="}) + " s9)"
+			text = r.Pick([]string{cmp, g.fn("Array") + "(" + cmp + ", " + text + ")", g.fn("If") + "(" + cmp + ", 1, 2)"})
+		}
+		nilVar := r.Bool(0.1)
+		if nilVar {
+			// a variable whose Value() is nil (the caller did SetValue(nil)), referenced where its value is never
+			// looked at: evaluation has no business repairing it
+			text = r.Pick([]string{"If(1 = 1, ", "Choose(1, "}) + text + ", nilq)"
+		}
+		many := r.Bool(0.006)
+		if many {
+			// very many evaluations of one calculator in flight at once (a small expression, one evaluation each,
+			// round-robin with a short quantum): anything that counts or limits concurrent users
+			ntasks = r.Range(130, 320)
+		}
 		p.Setup = []Op{{Op: "SetExpression", S: text}}
 		if r.Bool(0.15) {
 			p.Config["setup"] = "tokens" // compiled through SetOriginalTokens
 		}
 		for t := 0; t < ntasks; t++ {
 			tp := TaskPlan{Sets: []VarSet{g.GenVarSet(r), g.GenVarSet(r)}}
+			if many {
+				tp.Sets = tp.Sets[:1]
+			}
+			extra := map[string]func() Val{}
+			if nilVar {
+				extra["nilq"] = func() Val { return Val{T: "<nil>"} }
+			}
+			if twinFam != nil {
+				extra["s9"] = func() Val { return VStr(twinFam[r.Intn(len(twinFam))]) }
+			}
+			for _, name := range []string{"nilq", "s9"} {
+				if mk, ok := extra[name]; ok {
+					for _, vs := range tp.Sets {
+						vs[name] = mk()
+						if o, ok := vs["#order"]; ok && o.S != "" {
+							o.S += "," + name
+							vs["#order"] = o
+						}
+					}
+				}
+			}
 			for i, n := 0, r.Range(1, 4); i < n; i++ {
-				tp.Ops = append(tp.Ops, Op{Op: "eval", Set: i % 2})
+				tp.Ops = append(tp.Ops, Op{Op: "eval", Set: i % len(tp.Sets)})
+				if many {
+					break
+				}
 			}
 			p.Tasks = append(p.Tasks, tp)
+		}
+		if many {
+			p.Policy = "roundrobin"
+			p.Config["quantum"] = fmt.Sprint(r.Range(1, 6))
+			return p
 		}
 	case 1:
 		p.Scenario = "shared-template"
@@ -194,6 +245,16 @@ func (propC19) Gen(r *Rand) *Plan {
 	return p
 }
 
+var c19TwinFamilies = []struct {
+	left  []string
+	texts []string
+}{
+	{[]string{"TimeSpan(0,0,30,0)", "TimeSpan(0,1,0,0)", "TimeSpan(0,1,30,0)"}, []string{"1h", "1H", "90m", "90M", " 1h"}},
+	{[]string{"Date(2020,1,2)", "Date(2020,1,2,3,4,5)", "Date(2030,1,1)"}, []string{"2020-01-02T03:04:05Z", "2020-01-02t03:04:05z", "2020-01-02T03:04:05z", "2020-01-02 03:04:05Z"}},
+	{[]string{"100", "100.0", "31", "0"}, []string{"1e2", "1E2", "0x1f", "0X1F", " 100", "100 ", "1_00", "inf", "Inf", "INF", "nan", "NaN"}},
+	{[]string{"TRUE", "FALSE", "(1 = 1)"}, []string{"true", "TRUE", "True", "tRUE", " true", "1", "yes", "YES"}},
+}
+
 // c19Slot is one raw result, written by the owning task only.
 type c19Slot struct {
 	res    *variants.Variant
@@ -226,7 +287,7 @@ func buildVarsWith(vs VarSet, sortNames func([]string)) *variables.VariableColle
 				continue
 			}
 			if v, ok := vs[n]; ok {
-				c.Add(variables.NewVariable(n, v.ToVariant()))
+				c.Add(newVar(n, v))
 			} else {
 				c.Add(variables.NewVariable(n, variants.VariantFromInteger(-777)))
 			}
@@ -242,9 +303,19 @@ func buildVarsWith(vs VarSet, sortNames func([]string)) *variables.VariableColle
 		if n == "" || n == "#order" {
 			continue
 		}
-		c.Add(variables.NewVariable(n, vs[n].ToVariant()))
+		c.Add(newVar(n, vs[n]))
 	}
 	return c
+}
+
+// newVar builds a variable; a value of type "<nil>" gives one whose Value() is nil (SetValue(nil)).
+func newVar(name string, v Val) *variables.Variable {
+	if v.T == "<nil>" {
+		nv := variables.NewVariable(name, nil)
+		nv.SetValue(nil)
+		return nv
+	}
+	return variables.NewVariable(name, v.ToVariant())
 }
 
 func splitComma(s string) []string {
@@ -707,7 +778,11 @@ func (propC19) Exec(p *Plan, x *Ctx) *Outcome {
 	if x.Replay || len(p.Schedule) > 0 || x.R == nil {
 		ch = &ReplayChooser{Sched: p.Schedule}
 	} else {
-		ch = NewPolicyChooser(x.R, p.Policy, ntasks, false)
+		pc := NewPolicyChooser(x.R, p.Policy, ntasks, false)
+		if q := p.Cfg("quantum", ""); q != "" {
+			fmt.Sscan(q, &pc.MaxQ)
+		}
+		ch = pc
 	}
 	if p.Cfg("coarse", "") == "on" {
 		run.SetCoarse(true)
